@@ -17,7 +17,8 @@ from collections import Counter
 from typing import Optional
 
 from .. import runner
-from ..sharesmodel import EVERYONE, FRIENDS, USERS, RefIndex, is_under, parse_query, split_words
+from ..sharesmodel import (EVERYONE, FRIENDS, USERS, RefIndex, is_file_on_disk, is_under, parse_query, split_words,
+                           unstatable_entries)
 
 ID = 'C07'
 LEVEL = 'exploration'
@@ -386,6 +387,15 @@ class Harness:
         for d, fn in files:
             self._write(os.path.join(self.tree, *d, fn))
         self.mtime_bump = 0
+        # Entries that cannot be stat'ed (dangling symlinks, symlink loops) come from a separate
+        # random stream so that the histories themselves stay what they were without them.
+        self.frng = random.Random(f"{params['seed']}:{ID}:{params['case']}:unstatable")
+        self.initial_links = []
+        if self.frng.random() < 0.35:
+            for _ in range(self.frng.randint(1, 2)):
+                made = self._make_unstatable(self.frng.choice(self._dirs_for_link()))
+                if made:
+                    self.initial_links.append(made)
 
         friends = set(rng.sample(USER_POOL, rng.randint(0, 2)))
         self.settings = Settings(credentials={'username': 'u', 'password': 'p'})
@@ -424,12 +434,72 @@ class Harness:
         return sorted(out)
 
     def disk_files(self) -> list:
+        """Files on disk: listed non-directory entries that can be stat'ed."""
         out = []
         for cur, subdirs, files in os.walk(self.tree):
             subdirs.sort()
             for fn in sorted(files):
-                out.append(os.path.join(os.path.normpath(cur), fn))
+                p = os.path.join(os.path.normpath(cur), fn)
+                if is_file_on_disk(p):
+                    out.append(p)
         return sorted(out)
+
+    def _dirs_for_link(self) -> list:
+        """Directories for a new un-stat-able entry: those that hold regular files, below a
+        shared directory when there is one."""
+        dirs = self.disk_dirs()
+        with_files = [d for d in dirs if any(os.path.isfile(os.path.join(d, fn)) for fn in os.listdir(d))]
+        shared = list(getattr(self, 'model', None).dirs) if getattr(self, 'model', None) else []
+        under = [d for d in with_files if any(is_under(d, sd) for sd in shared)]
+        return under or with_files or dirs
+
+    def _make_unstatable(self, d: str):
+        """Create a directory entry with a music-like name that os.walk lists among the files but
+        that cannot be stat'ed: a dangling symlink or a symlink loop.  Up to 4 names are tried so
+        that at least one regular file is listed AFTER it (listing order = os.scandir order, which
+        is what os.walk and therefore the scan uses).  -> [kind, rel path, regular file listed after]"""
+        rng = self.frng
+        regular = {fn for fn in os.listdir(d) if os.path.isfile(os.path.join(d, fn))}
+        for attempt in range(4):
+            fn = _gen_name(rng, self.pool, 3) + rng.choice(EXTS)
+            p = os.path.join(d, fn)
+            if not fn or fn in ('.', '..') or os.path.lexists(p):
+                continue
+            kind = rng.choice(['dangling', 'dangling', 'loop'])
+            os.symlink(os.path.join(self.tmp, 'nowhere', fn) if kind == 'dangling' else fn, p)
+            names = [e.name for e in os.scandir(d)]
+            after = any(n in regular for n in names[names.index(fn) + 1:])
+            if after or not regular or attempt == 3:
+                runner.add_obs(self.res, 'unstatable_entries_created')
+                runner.add_cover(self.res, 'unstatable_kinds', kind)
+                return [kind, self.rel(p), after]
+            os.unlink(p)
+        return None
+
+    def count_unstatable_in_scan(self, roots: list):
+        """Coverage: what the scan that is about to run will meet."""
+        seen_dirs = set()
+        for root in roots:
+            for cur, _subdirs, _files in os.walk(root):
+                cur = os.path.normpath(cur)
+                if cur in seen_dirs:
+                    continue
+                seen_dirs.add(cur)
+                state = 0   # 1: an un-stat-able entry was listed; 2: a regular file after it
+                for e in os.scandir(cur):
+                    try:
+                        if e.is_dir():
+                            continue
+                    except OSError:
+                        pass
+                    if not is_file_on_disk(e.path):
+                        state = max(state, 1)
+                    elif state == 1:
+                        state = 2
+                if state:
+                    runner.add_obs(self.res, 'scanned_dirs_with_unstatable_entry')
+                if state == 2:
+                    runner.add_obs(self.res, 'scanned_dirs_with_file_listed_after_unstatable')
 
     def _mode(self):
         mode = self.rng.choice(MODES)
@@ -540,6 +610,7 @@ class Harness:
         if not shared:
             return False
         path = self.rng.choice(shared)
+        self.count_unstatable_in_scan([path])
         await self.alib('scan_dir', self.manager.scan_directory_files(self.manager.get_shared_directory(path)))
         self.model.scan_dir(path)
         self.trace.append({'op': 'scan_dir', 'dir': self.rel(path)})
@@ -547,6 +618,7 @@ class Harness:
         return True
 
     async def op_scan(self) -> bool:
+        self.count_unstatable_in_scan(self.model.shared_paths())
         await self.alib('scan', self.manager.scan())
         self.model.scan_all()
         self.trace.append({'op': 'scan'})
@@ -608,10 +680,22 @@ class Harness:
                     continue
                 os.rename(p, q)
                 done.append([kind, self.rel(p), self.rel(q)])
+        linked = False
+        if self.frng.random() < 0.3:
+            made = self._make_unstatable(self.frng.choice(self._dirs_for_link()))
+            if made:
+                done.append(['unstatable:' + made[0], made[1], {'regular_file_listed_after': made[2]}])
+                linked = True
+        elif self.frng.random() < 0.15:
+            links = unstatable_entries(self.tree)
+            if links:
+                p = self.frng.choice(links)
+                os.unlink(p)
+                done.append(['unlink_unstatable', self.rel(p)])
         if not done:
             return False
         self.trace.append({'op': 'disk', 'changes': done})
-        self.abstract.append('disk')
+        self.abstract.append('disk+unstatable' if linked else 'disk')
         return True
 
     async def op_load_settings(self) -> bool:
@@ -700,6 +784,8 @@ class Harness:
     def witness(self, **extra) -> dict:
         w = {
             'files_on_disk': [self.rel(p) for p in self.disk_files()][:40],
+            'unstatable_entries': [[self.rel(p), 'symlink -> ' + os.readlink(p).replace(self.tmp, '<tmp>')
+                                    if os.path.islink(p) else 'other'] for p in unstatable_entries(self.tree)],
             'shared': [[self.rel(p) or '.', d.mode, d.users] for p, d in self.model.dirs.items()],
             'friends': sorted(self.model.friends),
             'history': self.trace[-10:],
@@ -1014,6 +1100,8 @@ def run_case(params: dict) -> dict:
             res['sample'] = {
                 'params': params,
                 'files_on_disk_at_end': [h.rel(p) for p in h.disk_files()],
+                'unstatable_entries_in_initial_tree': h.initial_links,
+                'unstatable_entries_at_end': [h.rel(p) for p in unstatable_entries(h.tree)],
                 'shared_at_end': [[h.rel(p) or '.', d.mode, d.users] for p, d in h.model.dirs.items()],
                 'history': h.trace,
                 'observed': dict(res['obs']),
